@@ -389,7 +389,7 @@ def chains(tier, shard, nshards):
 
 def subchecks():
     return [
-        Sub("trees", run_tree, strategy=tree_s(), n_quick=60000, n_thorough=1500000,
+        Sub("trees", run_tree, strategy=tree_s(), n_quick=60000, n_thorough=1500000, fuzz_thorough=60000,
             required=("both-polarities", "sign-flip", "cancellation", "cmp>=", "cmp<=", "cmp>", "cmp<", "cmp=")),
         Sub("chains", run_tree, enum=chains, exhaustive=True,
             desc="all left-deep chains of 2 (quick) / 3 (thorough) operators over literals/terms/ints of 2 variables with "
